@@ -115,6 +115,17 @@ def _p1_body(name, V, tvals, w1, w2, depth, pos, aspect, special=0):
         slot = 1 if depth == 0 else 4
         VA[slot], VB[slot] = ka, kb
         A, B, affected, sweep_part = idcfg.config(VA, tvals, {}), idcfg.config(VB, tvals, {}), 1, False
+    elif name == "shorthand-argument":
+        # processors given as resolver strings whose distinguishing argument does not survive into the generated class name
+        PAIRS = [("rename:cal.gain:gain", "rename:cal_gain:gain"), ("rename:a_to_b:c", "rename:a:b_to_c"), ("delete:run.tmp", "delete:run_tmp"),
+                 ('template:"{a}_x":lab', 'template:"{a}_y":lab'), ("delete:a", "delete:b")]
+        assume(0 <= pos < len(PAIRS))
+        sa, sb = PAIRS[next(i for i in range(len(PAIRS)) if pos == i)]
+        A = idcfg.plain_nodes(V) + [{"processor": sa}]
+        B = idcfg.plain_nodes(V) + [{"processor": sb}]
+        affected, sweep_part = 3, False
+    elif name == "sweep:two-nodes-exchange":
+        A, B, affected, sweep_part = idcfg.config(V, tvals, {}, two_sweeps=True), idcfg.config(V, tvals, {}, two_sweeps=True, swap_sweeps=True), 2, True
     elif name == "node-order":
         VA = list(V)
         VA[1], VA[7] = w1, w2  # two different operations: order matters
@@ -145,7 +156,7 @@ def _p1_body(name, V, tvals, w1, w2, depth, pos, aspect, special=0):
     return _check_pair(name, a, b, affected, sweep_part, aspect)
 
 
-MUTS = ["processor", "node-added", "node-order", "param-value", "param-value-json-kind", "sweep:wrapped-processor", "sweep:expression", "sweep:expression-constant", "sweep:expression-regroup-sum", "sweep:expression-regroup-product", "sweep:expression-operand-swap", "sweep:mode", "sweep:broadcast", "sweep:collection", "sweep:variable-kind", "sweep:variable-domain", "sweep:variable-domain-length", "sweep:unreferenced-variable-domain"]
+MUTS = ["processor", "node-added", "node-order", "param-value", "param-value-json-kind", "shorthand-argument", "sweep:two-nodes-exchange", "sweep:wrapped-processor", "sweep:expression", "sweep:expression-constant", "sweep:expression-regroup-sum", "sweep:expression-regroup-product", "sweep:expression-operand-swap", "sweep:mode", "sweep:broadcast", "sweep:collection", "sweep:variable-kind", "sweep:variable-domain", "sweep:variable-domain-length", "sweep:unreferenced-variable-domain"]
 
 
 def _replay_p1(param, a):
@@ -229,7 +240,7 @@ def obligations(tier: str) -> List[Ob]:
     tg = ["semantiva/pipeline/graph_builder.py:_canonical_node", "semantiva/pipeline/graph_builder.py:build_canonical_spec", "semantiva/metadata/semantic_id.py:compute_pipeline_semantic_id", "semantiva/metadata/semantic_id.py:compute_pipeline_config_id", "semantiva/metadata/semantic_id.py:compute_node_semantic_id", "semantiva/metadata/semantic_id.py:variable_domain_signature", "semantiva/data_processors/parametric_sweep_factory.py:ParametricSweepFactory.create"]
     return [
         Ob("C05.P1", _make_p1, _replay_p1, params=[(m, a) for m in MUTS for a in ("semantic_id", "config_id", "node")], budget=600, per_path=60,
-           bound="(for the sweep operators the shared swept domain optionally holds inf / nan / -inf, symbolic selector) 18 mutation operators x 3 aspects (semantic id / config id / affected node's UUID-or-semantic-id), one obligation each (processor, node added, node order, parameter value at depth 0-2 / in a list / in a dict in a list, and every part of a sweep definition: wrapped processor, expression, expression constant, mode, broadcast, collection, variable kind, variable domain at a symbolic position of a 7-element sequence, domain length); all values symbolic, mutated values w1 != w2",
+           bound="(for the sweep operators the shared swept domain optionally holds inf / nan / -inf, symbolic selector) 20 mutation operators x 3 aspects (semantic id / config id / affected node's UUID-or-semantic-id), one obligation each (processor, node added, node order, parameter value at depth 0-2 / in a list / in a dict in a list, and every part of a sweep definition: wrapped processor, expression, expression constant, mode, broadcast, collection, variable kind, variable domain at a symbolic position of a 7-element sequence, domain length); all values symbolic, mutated values w1 != w2",
            targets=tg, stubs=list(STUBS) + ["injective-hash model"]),
         Ob("C05.P2", lambda _p: _p2, lambda _p, a: C04._wrap(_p2_body(a["v"], a["n"])), budget=120, bound="2..4 textually identical nodes with one symbolic parameter value", targets=tg[:2]),
         Ob("C05.P3", lambda _p: _p3, _replay_p3, budget=600, per_path=60,
